@@ -24,6 +24,8 @@ def run(rep, tier):
     rep.rule("R15.1", "Thole tensor: T = -3 l5 a a^T + l3 I with a the unit vector from A to B; T = T^T; for au3 >= 40 l3 = l5 = R^-3 so tr T = 0; "
                       "damped: l3 = R^-3 (1 - e^-u), l5 = R^-3 (1 - (1+u) e^-u), u = expdamping R^3 s1 s2")
     rep.rule("R15.2", "monopole: fac1 = 1/|posB - posA| and the charge-charge entry is fac1 * charge")
+    rep.rule("R15.4", "callers that contract VSiteA<N>(A, B) with A's multipole vector Q(A): the 4-component form (charge + dipole of A) is chosen only when rank(A) < 2, "
+                      "for every combination of the two ranks; with rank(A) = 2 the 9-component form is used (else A's quadrupole terms are dropped and E(A,B) != E(B,A))")
     rep.rule("R15.3", "VSiteA<N>: the interaction block (rank a of site A) x (rank b of site B) is accumulated exactly once whenever A carries rank a "
                       "(N = 1, 4, 9) and B carries rank b (getRank() >= b), for all nine rank pairs - no pair is dropped or doubled by the rank gating")
     units = [front.repo("xtp/src/libxtp/eeinteractor.cc")]
@@ -112,6 +114,7 @@ def run(rep, tier):
                         "field/energy derivative relation are NOT decided (they need path-sensitive evaluation of VSiteA<N> over if-constexpr/rank "
                         "branches or execution)"]
     check_rank_gating(rep, F)
+    check_size_selection(rep, F)
 
 
 def check_rank_gating(rep, F):
@@ -169,3 +172,61 @@ def check_rank_gating(rep, F):
                               "eeInteractor::VSiteA<%d>: with rank(B) = %d the rank-%d(A) x rank-%d(B) interaction block is accumulated %d times (required once): the pair energy "
                               "depends on which site is passed first and disagrees with the point-charge limit" % (N, rb, a, b, len(hits)),
                               f.loc(hits[0]["node"] if hits else None), sample=(N == 9 and (a, b, rb) in ((2, 1, 1), (1, 2, 2))))
+
+
+def check_size_selection(rep, F):
+    import itertools
+    from sympy.core.function import AppliedUndef
+    from vsa.cases import executes
+    n_sites = 0
+    seen = set()
+    for f in F.funcs:
+        if not f.qname.startswith(X + "eeInteractor::") or f.j["template"] == "pattern" or (f.qname, f.j.get("sig")) in seen:
+            continue
+        if not any(n.get("k") in ("call", "mcall") and (n.get("callee") or "").endswith("eeInteractor::VSiteA") for n in f.walk()):
+            continue
+        seen.add((f.qname, f.j.get("sig")))
+        fo = Fold(f, record_calls=r"eeInteractor::VSiteA$", inline=False).run()
+        conds = getattr(fo, "conds", {})
+        calls = [e for e in fo.events if e["kind"] == "call"]
+        rets = [e for e in fo.events if e["kind"] == "return" and e.get("value") is not None]
+        full = [e for e in calls if len(e["args"]) >= 2 and any(("Q(%s)" % e["args"][-2]) in str(r_["value"]) for r_ in rets)]
+        if not full:
+            continue                       # only a part of the potential is used (e.g. the field at A): N = 4 is the whole of it
+        rep.analysed(f)
+        A_, B_ = full[0]["args"][-2], full[0]["args"][-1]
+        rA, rB = Fn("getRank")(A_), Fn("getRank")(B_)
+        bad = None
+        for ra, rb in itertools.product((0, 1, 2), repeat=2):
+            sub = {rA: sp.Integer(ra), rB: sp.Integer(rb)}
+            # min/max of the two ranks, as they may appear in the selecting condition
+            for e in calls:
+                for g_ in list(e["guards"]) + [x for nl in e.get("not", []) for x in nl]:
+                    stack = [g_[0]]
+                    while stack:
+                        c = stack.pop()
+                        if isinstance(c, tuple):
+                            stack += list(c[1:])
+                        elif isinstance(c, sp.Basic):
+                            for a_ in c.atoms(AppliedUndef):
+                                if str(a_.func) in ("min", "max") and all(x.xreplace(sub).is_number for x in a_.args):
+                                    sub[a_] = (sp.Min if str(a_.func) == "min" else sp.Max)(*[x.xreplace(sub) for x in a_.args])
+            hit = []
+            for e in full:
+                x = executes(e, sub, {}, None, conds)
+                if x is None:
+                    bad = "cannot decide which VSiteA<N> is used for rank(%s) = %d, rank(%s) = %d" % (A_, ra, B_, rb)
+                    break
+                if x:
+                    hit.append(e)
+            if bad:
+                break
+            ns = [int(re.search(r"<(\d+)>", e["node"].get("callee_targs") or "<0>").group(1)) for e in hit]
+            need = 9 if ra == 2 else 4
+            if len(ns) != 1 or ns[0] < need:
+                bad = "for rank(%s) = %d, rank(%s) = %d the energy is contracted with VSiteA<%s>: the %s of %s are dropped, so the pair energy depends on which site is passed first" % (
+                    A_, ra, B_, rb, ns, "quadrupole terms" if need == 9 else "terms", A_)
+                break
+        n_sites += 1
+        rep.check(bad is None, "R15.4", "size-selection|" + f.qname.split("::")[-1], "VSiteA<9> whenever the contracted site carries a quadrupole", "%s: %s" % (f.qname, bad), f.loc(full[0]["node"]), sample=True)
+    rep.floor("R15.4", n_sites, 1, "callers contracting VSiteA with the full multipole vector")
